@@ -184,6 +184,8 @@ func (g *G) genStep(cfg *MachineCfg, kind string) *world.Step {
 		return &world.Step{Kind: "tx", Tx: g.genPnftTx()}
 	case "read_did":
 		return g.genDidReads()
+	case "reads":
+		return g.genProbeReads()
 	case "sim_aol":
 		return g.genPerturb(g.genAolMsg, true)
 	case "sim_did":
